@@ -392,6 +392,45 @@ func (e *eng) call(op string, txn statedb.ReadTxn, rev statedb.Revision, ob *obj
 	return nil
 }
 
+// probeHealth: the reconcile loop reports its health at the end of every round, right after it has published
+// its progress (revision, retry low watermark) - the one moment between two rounds. The probe reads the
+// published progress there (C16): a zero low watermark while a failed object is waiting for its retry would let
+// WaitUntilReconciled report "nothing awaits retry" until the next round corrects it.
+type probeHealth struct{ e *eng }
+
+func (h probeHealth) OK(string)              { h.e.roundEndProbe() }
+func (h probeHealth) Degraded(string, error) { h.e.roundEndProbe() }
+func (h probeHealth) Stopped(string)         {}
+func (h probeHealth) Close()                 {}
+func (h probeHealth) NewScope(string) cell.Health {
+	return h
+}
+
+func (e *eng) roundEndProbe() {
+	if e.r == nil || e.table == nil {
+		return
+	}
+	_, lwm, _ := e.r.WaitUntilReconciled(context.Background(), 0)
+	if lwm != 0 {
+		return
+	}
+	// an object whose last Update (of its current version) failed is waiting for a retry
+	for o := range e.table.All(e.db.ReadTxn()) {
+		if o.GetStatus().Kind != reconciler.StatusKindError {
+			continue
+		}
+		var last *call
+		for j := range e.hist {
+			if c := &e.hist[j]; c.k == o.K && c.gen == o.Gen && (c.op == "U" || c.op == "UB") {
+				last = c
+			}
+		}
+		if last != nil && !last.ok {
+			e.flag("C16", "low-watermark-zero-at-round-end-while-object-awaits-retry")
+		}
+	}
+}
+
 // C16 timing oracle, evaluated on the implementation's call log only. A "sequence" is a run of
 // attempts of one (key, generation, op class) that starts with a fresh attempt (first one, or one
 // whose revision is a new user-write revision: the object was changed/re-stamped) .
@@ -603,7 +642,7 @@ func (e *eng) start() {
 		statedb.Cell,
 		job.Cell,
 		cell.Provide(
-			cell.NewSimpleHealth,
+			func() cell.Health { return probeHealth{e} },
 			func() reconciler.Metrics { return roundMetrics{e} },
 			func(r job.Registry, h cell.Health) job.Group { return r.NewGroup(h) },
 		),
